@@ -4,5 +4,8 @@ RUNNERS = {
     "bind": ("Extract/ExtractBind.v", "bind_driver.ml", ["bind_model"]),
     "blocks": ("Extract/ExtractBlocks.v", "blocks_driver.ml", ["blocks_model"]),
     "serial": ("Extract/ExtractSerial.v", "serial_driver.ml", ["serial_model"]),
+    "plan": ("Extract/ExtractPlan.v", "plan_driver.ml", ["plan_model"]),
+    "solver": ("Extract/ExtractSolver.v", "solver_driver.ml", ["solver_model"]),
+    "opt": ("Extract/ExtractOpt.v", "opt_driver.ml", ["opt_model"]),
     "mro": ("Extract/ExtractMro.v", "mro_driver.ml", ["mro_model"]),
 }
